@@ -47,6 +47,10 @@ pub struct FCase {
     pub active: bool,
     pub peer_alloc0: u32,
     pub ops: Vec<FOp>,
+    /// how the peer ends the stream before the final drain: 0 = it does not, 1 = SHUTDOWN,
+    /// 2 = RST, 3 = SHUTDOWN then RST. Whatever it sent before must still be readable.
+    #[serde(default)]
+    pub close: u8,
 }
 
 fn dpat(dir: u8, k: u64) -> u8 {
@@ -173,6 +177,7 @@ fn stream_inner(c: &FCase, st: &mut Stats) -> Result<(), String> {
     let mut unpolled: VecDeque<(Pkt, Vec<u8>)> = VecDeque::new();
     let mut buffered: VecDeque<u8> = VecDeque::new();
     let mut app_read: u64 = 0;
+    let mut closed = false;
     let mut tx_seen = 0usize;
     let mk_pkt = |op: u16, len: u32, alloc: u32, fwd: u32| Pkt {
         src_cid: PEER.0,
@@ -467,6 +472,52 @@ fn stream_inner(c: &FCase, st: &mut Stats) -> Result<(), String> {
             }
         }
     }
+    // the peer may end the stream; what it sent before stays readable
+    if c.close % 4 != 0 {
+        while let Some((p, payload)) = unpolled.pop_front() {
+            let r = g!("pre-close poll", mgr.poll());
+            if p.op == 5 {
+                if !matches!(&r, Ok(Some(_))) {
+                    return Err(format!("pre-close: data packet returned {:?}", r));
+                }
+                buffered.extend(payload.iter().copied());
+            }
+            let _ = check_tx!("pre-close");
+        }
+        let seq: &[u16] = match c.close % 4 {
+            1 => &[4],
+            2 => &[3],
+            _ => &[4, 3],
+        };
+        let mut gone = false;
+        for &op in seq {
+            settle(&dev);
+            let mut p = mk_pkt(op, 0, peer_alloc, peer_consumed as u32);
+            if op == 4 {
+                p.flags = 3;
+            }
+            let ok = dev.with(|d| world::with(|w| {
+                let d = &mut *d;
+                d.h.inject(w, &mut d.qs, &p, &[])
+            }));
+            if !ok {
+                break;
+            }
+            let r = g!("peer close", mgr.poll());
+            if gone {
+                if r != Ok(None) {
+                    return Err(format!("peer close: packet for the already closed connection returned {:?}", r));
+                }
+            } else if !matches!(&r, Ok(Some(e)) if matches!(e.event_type, VsockEventType::Disconnected { .. })) {
+                return Err(format!("peer close (op {}): poll returned {:?}", op, r));
+            }
+            let _ = check_tx!("peer close");
+            if buffered.is_empty() {
+                gone = true; // nothing to drain: the connection is dropped at once
+            }
+        }
+        closed = true;
+    }
     // drain: everything the peer sent must come out, in order
     loop {
         while let Some((p, payload)) = unpolled.pop_front() {
@@ -500,6 +551,9 @@ fn stream_inner(c: &FCase, st: &mut Stats) -> Result<(), String> {
         return Err(format!("the peer sent {} bytes but the application could read {}", peer_sent, app_read));
     }
     g!("drop", drop(mgr));
+    if closed {
+        st.class("peer_closed_the_stream_before_the_drain");
+    }
     if refused_then_accepted {
         st.class("send_refused_for_credit_then_accepted");
     }
@@ -718,8 +772,9 @@ pub fn stream_strategy() -> impl Strategy<Value = FCase> {
         any::<bool>(),
         prop_oneof![Just(0u32), 1u32..200, 1000u32..100_000, Just(u32::MAX)],
         prop::collection::vec(fop(), 0..80),
+        prop_oneof![3 => Just(0u8), 1 => Just(1u8), 2 => Just(2u8), 1 => Just(3u8)],
     )
-        .prop_map(|(kind, offered, policy, capacity, rxsel, active, peer_alloc0, ops)| FCase { kind, offered, policy, capacity, rxsel, active, peer_alloc0, ops })
+        .prop_map(|(kind, offered, policy, capacity, rxsel, active, peer_alloc0, ops, close)| FCase { kind, offered, policy, capacity, rxsel, active, peer_alloc0, ops, close })
 }
 
 fn wop() -> impl Strategy<Value = WOp> {
